@@ -566,19 +566,117 @@ def translate(path):
     out.append(MethodTr(name, fns[name], tables).translate())
   return '\n'.join(out)
 
-def translate_helpers(path):
-  """helpers.py: only clog2 is translated (pure int code); the other helpers are hand-modelled in
-  Bits/Helpers.v and tied by T-diff."""
+class HelperTr(MethodTr):
+  """helpers.py straight-line functions: value is a Bits (v_nbits, v_uint); new_width is an int or a BitsN class."""
+  def __init__(self, name, fn, coqname, params):
+    self.name, self.fn, self.tables = name, fn, {}
+    self.coqname, self.params, self.uses_state, self.rkind = coqname, params, False, 'bits'
+    self.counter = 0
+
+  def expr(self, e, env):
+    # value.nbits / value.uint() / value.int() / int(value)
+    if isinstance(e, ast.Attribute) and isinstance(e.value, ast.Name) and env.get(e.value.id, (None, None))[1] == 'bitsval' and e.attr == 'nbits':
+      return 'v_nbits', 'int'
+    if isinstance(e, ast.Call) and isinstance(e.func, ast.Attribute) and isinstance(e.func.value, ast.Name) \
+       and env.get(e.func.value.id, (None, None))[1] == 'bitsval' and not e.args and not e.keywords:
+      if e.func.attr == 'uint': return 'v_uint', 'int'
+      if e.func.attr == 'int':  return '(bind (bits_sint v_nbits v_uint 0) (fun z => Ok (0, z)))', 'bits'
+      raise Refuse(f'{self.name}: method {e.func.attr} of value')
+    if isinstance(e, ast.Call) and isinstance(e.func, ast.Name) and e.func.id == 'int' and len(e.args) == 1 \
+       and isinstance(e.args[0], ast.Name) and env.get(e.args[0].id, (None, None))[1] == 'bitsval':
+      return 'v_uint', 'int'
+    return MethodTr.expr(self, e, env)
+
+  def ctor(self, v, env):
+    """Bits(w, X [, trunc_int=True])  |  new_width(X [, trunc_int=True])  |  b1(X)   ->  res (Z*Z)"""
+    if not isinstance(v, ast.Call) or not isinstance(v.func, ast.Name): return None
+    kw = {k.arg: k.value for k in v.keywords}
+    if set(kw) - {'trunc_int'}: raise Refuse(f'{self.name}: keyword {sorted(kw)}')
+    tr = 'false'
+    if 'trunc_int' in kw:
+      if not (isinstance(kw['trunc_int'], ast.Constant) and isinstance(kw['trunc_int'].value, bool)): raise Refuse('trunc_int value')
+      tr = 'true' if kw['trunc_int'].value else 'false'
+    f = v.func.id
+    if f == 'Bits' and len(v.args) == 2:
+      w, x = self.as_int(v.args[0], env), v.args[1]
+    elif f in env and env[f][1] == 'wtype' and len(v.args) == 1:
+      w, x = env[f][0], v.args[0]
+    elif f == 'b1' and len(v.args) == 1:
+      w, x = '1', v.args[0]
+    else:
+      return None
+    xs, xt = self.expr(x, env)
+    if xt == 'bits':     # value.int(): bind the signed value first
+      b = self.fresh('sv')
+      return f'(bind {xs} (fun {b} => bits_init {w} (OInt (snd {b})) {tr}))'
+    xs = self.as_int(x, env)
+    return self.with_hoists([x], env, f'(bits_init {w} (OInt {xs}) {tr})')
+
+  def ret(self, s, env):
+    c = self.ctor(s.value, env)
+    if c is None: raise Refuse(f'{self.name}: return {src(s)}')
+    return c
+
+  def if_(self, s, rest, env):
+    it = self.isinstance_test(s.test)
+    if it and it[1] == 'int' and env.get(it[0], (None, None))[1] == 'wspec':
+      v = env[it[0]][0]
+      wi, wt = self.fresh('wi'), self.fresh('wt')
+      e1 = dict(env); e1[it[0]] = (wi, 'int')
+      e2 = dict(env); e2[it[0]] = (wt, 'wtype')
+      return f'(match {v} with WInt {wi} => {self.stmts(s.body + rest, e1)} | WType {wt} => {self.stmts(s.orelse + rest, e2)} end)'
+    return MethodTr.if_(self, s, rest, env)
+
+  def stmts(self, ss, env):
+    # assert issubclass( new_width, Bits )   holds in the WType arm by construction
+    if ss and isinstance(ss[0], ast.Assert) and src(ss[0].test).replace(' ', '') in ('issubclass(new_width,Bits)',):
+      if env.get('new_width', (None, None))[1] != 'wtype': raise Refuse(f'{self.name}: issubclass outside the type arm')
+      return self.stmts(ss[1:], env)
+    return MethodTr.stmts(self, ss, env)
+
+  def try_(self, s, rest, env):
+    # try: return b1( ... value.nbits ... )  except AttributeError: raise TypeError     (value is a Bits here)
+    if len(s.handlers) == 1 and isinstance(s.handlers[0].type, ast.Name) and s.handlers[0].type.id == 'AttributeError' \
+       and len(s.handlers[0].body) == 1 and isinstance(s.handlers[0].body[0], ast.Raise):
+      return self.stmts(s.body + rest, env)
+    return MethodTr.try_(self, s, rest, env)
+
+  def translate(self):
+    fn = self.fn
+    args = [a.arg for a in fn.args.args]
+    if args != [p for p, _ in self.params]: raise Refuse(f'{self.name}: parameters {args}')
+    env = {}
+    coqparams = []
+    for p, k in self.params:
+      if k == 'bitsval': coqparams.append('(v_nbits v_uint : Z)'); env[p] = (p, 'bitsval')
+      elif k == 'wspec': coqparams.append(f'({p} : wspec)'); env[p] = (p, 'wspec')
+      elif k == 'int':   coqparams.append(f'({p} : Z)'); env[p] = (p, 'int')
+    body = self.stmts(fn.body, env)
+    return f'Definition {self.coqname} {" ".join(coqparams)} : res (Z * Z) :=\n  {body}.\n'
+
+def translate_helpers(path, bits_import_path):
+  """helpers.py: clog2, trunc, zext, sext, reduce_and, reduce_or are translated (straight-line code);
+  concat and reduce_xor (loops) are hand-modelled in Bits/Helpers.v and tied by T-diff."""
   mod = ast.parse(open(path).read())
   fns = {n.name: n for n in ast.walk(mod) if isinstance(n, ast.FunctionDef)}
-  if 'clog2' not in fns: raise Refuse('helpers.clog2 missing')
+  for need in ('clog2', 'trunc', 'zext', 'sext', 'reduce_and', 'reduce_or'):
+    if need not in fns: raise Refuse(f'helpers.{need} missing')
+  # the BitsN class constructor must be Bits.__init__( N, v, trunc_int ) — pinned in the class template
+  bi = open(bits_import_path).read()
+  if bi.count('return super().__init__( {0}, v, trunc_int )') < 1 or 'def __init__( s, v=0, *, trunc_int=False ):' not in bi:
+    raise Refuse('bits_import.py class template changed')
   fn = fns['clog2']
   if [a.arg for a in fn.args.args] != ['N']: raise Refuse('clog2 signature')
   METHODS['clog2'] = ('gen_clog2', [('N', 'int')], False, 'int')
   tr = MethodTr('clog2', ast.FunctionDef(name='clog2', args=ast.arguments(posonlyargs=[], args=[ast.arg('self')] + fn.args.args,
                  kwonlyargs=[], kw_defaults=[], defaults=[]), body=fn.body, decorator_list=[]), {})
   out = ['(* GENERATED by translators/py2coq_bits.py from pymtl3/datatypes/helpers.py — do not edit *)',
-         'From PV Require Import Base.Prelude Bits.BitsSpec Bits.Helpers.', 'Open Scope Z_scope.', '', tr.translate()]
+         'From PV Require Import Base.Prelude Bits.BitsSpec Bits.Helpers Gen.BitsGen.', 'Open Scope Z_scope.', '',
+         'Inductive wspec : Set := WInt (w : Z) | WType (w : Z).', '', tr.translate()]
+  for name in ('trunc', 'zext', 'sext'):
+    out.append(HelperTr(name, fns[name], 'gen_' + name, [('value', 'bitsval'), ('new_width', 'wspec')]).translate())
+  for name in ('reduce_and', 'reduce_or'):
+    out.append(HelperTr(name, fns[name], 'gen_' + name, [('value', 'bitsval')]).translate())
   return '\n'.join(out)
 
 def emit(dst, text):
@@ -601,7 +699,7 @@ if __name__ == '__main__':
   print('ok', dst)
   hdst = os.path.join(os.path.dirname(dst), 'HelpersGen.v')
   try:
-    emit(hdst, translate_helpers(os.path.join(repo, 'pymtl3', 'datatypes', 'helpers.py')))
+    emit(hdst, translate_helpers(os.path.join(repo, 'pymtl3', 'datatypes', 'helpers.py'), os.path.join(repo, 'pymtl3', 'datatypes', 'bits_import.py')))
     print('ok', hdst)
   except (Refuse, SyntaxError) as e:
     # leave a stub that does NOT define gen_clog2: Props/C05.v then fails to build (fail-closed)
